@@ -37,6 +37,12 @@ pub fn int_classes() -> Vec<(&'static str, fn(usize) -> i64)> {
         ("swing", |i| if i % 2 == 0 { i64::MIN + 1 } else { i64::MAX - 1 }),
         ("const", |_| 42),
         ("bigmono", |i| (1 << 50) + (i as i64) * (1 << 33)),
+        // increasing runs whose delta form (first value, then differences) needs an offset:
+        // negative start with small steps (u8 + offset), start inside the range of large steps
+        // (u8 + offset 900), negative start with steps of 1000 (u16 + offset)
+        ("mononeg", |i| -5 + 3 * (i as i64)),
+        ("monostep", |i| 1000 + 1000 * (i as i64) + ((i % 3) as i64) * 50),
+        ("mononeg16", |i| -300 + 1000 * (i as i64)),
     ]
 }
 
@@ -425,6 +431,10 @@ fn push_alphabet(tier: Tier) -> Vec<Push> {
         for c in ["u8", "u8off", "i64full", "mono", "swing"] {
             v.push(Push::Ints(c.into(), *n, NullPat::None));
         }
+        if *n >= 8 {
+            v.push(Push::Ints("mononeg".into(), *n, NullPat::None));
+            v.push(Push::Ints("monostep".into(), *n, NullPat::First));
+        }
         v.push(Push::Ints("u16".into(), *n, NullPat::Alternating));
         v.push(Push::Ints("negint".into(), *n, NullPat::First));
         v.push(Push::Floats("fmix".into(), *n, NullPat::None));
@@ -575,8 +585,8 @@ pub struct CsvCase {
     pub partition_size: usize,
 }
 
-const CSV_CLASSES: [&str; 18] = [
-    "u8", "u8off", "negint", "u16", "u32", "i64full", "mono", "swing", "const", "bigmono", "f32exact", "fconst", "fmix", "fnan", "sunique", "slen", "sone", "sdict",
+const CSV_CLASSES: [&str; 21] = [
+    "u8", "u8off", "negint", "u16", "u32", "i64full", "mono", "swing", "const", "bigmono", "mononeg", "monostep", "mononeg16", "f32exact", "fconst", "fmix", "fnan", "sunique", "slen", "sone", "sdict",
 ];
 
 pub fn run_csv_case(c: &CsvCase, tr: &mut u64) -> Option<(String, String)> {
@@ -694,7 +704,7 @@ impl Engine for C01 {
         let depth = if tier == Tier::Quick { 2 } else { 3 };
         Describe {
             level: "model_checking",
-            rule: "(a) every sequence of up to `depth` pushes over the push alphabet (ints of 5+2 magnitude classes, floats incl. -0.0/subnormal/inf/NaN payloads, dictionary / unique / hex / long strings, each with no / alternating / first-row null map, chunk lengths 1,(7),8,9, push_nulls(1|8)) on the real ColumnBuffer, finalized and decoded with the column decoder, compared value by value with the pushed values; (b) every (length in {1,2,7,8,9,63,64,65}, null pattern in {none, all, first, last, alternating, single present, tail}, ingestion path in {wire bytes, native TableBuffer, row API}, representation family, layout in {open buffer, flushed, flushed+reopened, no lz4, two chunks then flushed}) - one table holding all 27 column classes (10 integer, 4 float, 10 string incl. hex strings whose packed length is 254 / 255 / 256 / 510 bytes, 3 mixed-type) - ingested into a real database and read back with SELECT c for every column and SELECT *; cells must equal the supplied values (ints exact, floats by bits, strings by bytes, NULL where none was supplied; documented coercion for mixed-type columns); (c) a generated CSV file with 18 column classes for every length x null pattern x partition size {65536, 7} loaded with load_csv and read back. Non-trivial: case contains a non-NULL value; distinct by case description.".into(),
+            rule: "(a) every sequence of up to `depth` pushes over the push alphabet (ints of 5+2 magnitude classes, floats incl. -0.0/subnormal/inf/NaN payloads, dictionary / unique / hex / long strings, each with no / alternating / first-row null map, chunk lengths 1,(7),8,9, push_nulls(1|8)) on the real ColumnBuffer, finalized and decoded with the column decoder, compared value by value with the pushed values; (b) every (length in {1,2,7,8,9,63,64,65}, null pattern in {none, all, first, last, alternating, single present, tail}, ingestion path in {wire bytes, native TableBuffer, row API}, representation family, layout in {open buffer, flushed, flushed+reopened, no lz4, two chunks then flushed}) - one table holding all 30 column classes (13 integer incl. three increasing runs whose delta form needs an offset, 4 float, 10 string incl. hex strings whose packed length is 254 / 255 / 256 / 510 bytes, 3 mixed-type) - ingested into a real database and read back with SELECT c for every column and SELECT *; cells must equal the supplied values (ints exact, floats by bits, strings by bytes, NULL where none was supplied; documented coercion for mixed-type columns); (c) a generated CSV file with 21 column classes for every length x null pattern x partition size {65536, 7} loaded with load_csv and read back. Non-trivial: case contains a non-NULL value; distinct by case description.".into(),
             assumptions: vec![
                 "2^63-1 and the NaN pattern 0x7ffaaaaaaaaaaaaa are outside the value domain (reserved NULL markers)".into(),
                 "mixed-type columns: a cell may come back as its documented coercion (int -> float, number -> its decimal string)".into(),
